@@ -6,6 +6,7 @@ callables log themselves, a sys.modules diff - around the real load() of hostile
 Every hostile document has a benign twin (hostile node replaced by a registered tag) that
 must load, and every shard first proves with PyYAML's UnsafeLoader that the canaries fire.
 """
+import logging
 import os
 import sys
 import tempfile
@@ -23,7 +24,7 @@ META = {
         "unicode, bool, none) written as !!python/.., as verbatim !<tag:yaml.org,2002:python/..> and through a %TAG "
         "handle, plus unregistered !tags (plain, dotted importable names, names of real classes) - x targets "
         "(builtins, os/subprocess functions, already-imported and never-imported canary modules, cobald classes, "
-        "not-yet-imported stdlib modules) x positions (document root, a second or third document of the same stream, extra section, pipeline element, inside the "
+        "not-yet-imported stdlib modules; every fourth hostile document replaces, in place and with the same modification time, a valid file that was loaded just before) x positions (document root, beside a logging section that names a handler factory, a second or third document of the same stream, extra section, pipeline element, inside the "
         "arguments of a lazily and of an eagerly evaluated registered tag in mapping and sequence form, nested two "
         "levels deep, behind an anchor/alias, as a key of a plain mapping and of the mapping directly under a lazy / eager "
         "registered tag, as the value of a merge key, as a tag on the top-level mapping that holds the sections, in a value that a repeated key "
@@ -111,6 +112,8 @@ POSITIONS = {
     "dup_section": "vextra: %(h)s\npipeline:\n  - !VPool\nvextra: {b: 1}\n",
     "logging_section": "logging: {version: 1, x: %(h)s}\npipeline:\n  - !VPool\n",
     "shipped_tag_arg": "pipeline:\n  - !LinearController {rate: %(h)s}\n  - !VPool\n",
+    # the refused document also has a logging section naming a factory: nothing of a refused document may be applied
+    "beside_logging_factory": "logging: {version: 1, disable_existing_loggers: false, handlers: {h: {'()': vcanary_cold.handler}}, loggers: {verif.c18: {handlers: [h]}}}\npipeline:\n  - !VPool\nvextra: {a: %(h)s}\n",
     # a later document of the same stream (the file is one configuration: everything in it is "the document")
     "second_document": "pipeline:\n  - !VPool\n%(directive)s---\nextra: %(h)s\n",
     "second_document_root": "pipeline:\n  - !VPool\n...\n%(directive)s--- %(h)s\n",
@@ -199,17 +202,38 @@ class Canaries:
         return False
 
 
-def load_text(text):
-    from cobald.daemon.core.config import load
-
+def write_config(text):
     with tempfile.NamedTemporaryFile("w", suffix=".yaml", prefix="cobald-verif-", delete=False) as f:
         f.write(text)
-        path = f.name
+        return f.name
+
+
+def load_path(path):
+    from cobald.daemon.core.config import load
+
+    with load(path) as config:
+        return config
+
+
+def overwrite_keeping_mtime(path, text):
+    """What cp -p / rsync -t do: new content, old modification time."""
+    stat = os.stat(path)
+    with open(path, "w") as f:
+        f.write(text)
+    os.utime(path, ns=(stat.st_atime_ns, stat.st_mtime_ns))
+
+
+def load_text(text):
+    path = write_config(text)
     try:
-        with load(path) as config:
-            return config
+        return load_path(path)
     finally:
         os.unlink(path)
+
+
+def purge_cold():
+    for name in [m for m in sys.modules if m.split(".")[0] in COLD_MODULES]:
+        del sys.modules[name]
 
 
 def selftest(result):
@@ -244,13 +268,46 @@ def run_product(spec, result):
         if only is not None and i != only:
             continue
         case = cases[i]
+        hostile = hostile_nodes_by_label()[case["label"]]
+        special = {"root": "{pipeline: [!VPool ]}", "pipeline_element": "!VDeco", "pipeline_tail": "!VPool", "mapping_key": "plainkey",
+                   "lazy_tag_mapping_key": "plainkey", "eager_tag_mapping_key": "plainkey", "shipped_tag_arg": "2", "merge_value": "{a: 1}"}
+        if case["position"] in MULTI_DOC:
+            twin = "pipeline:\n  - !VPool\n"  # the stream without the later documents
+        elif case["position"] == "root_tag_on_sections":
+            twin = case["text"].replace("--- " + hostile.split(" ")[0], "---")
+        else:
+            twin = case["text"].replace(hostile, special.get(case["position"], BENIGN))
+        # the benign twin must load: "everything is rejected" cannot pass.  For every fourth case it is loaded first, from the
+        # very file that is then overwritten in place (same modification time) with the hostile document
+        in_place = i % 4 == 0
+        path = None
+        vplug.reset()
+        try:
+            if in_place:
+                path = write_config(twin)
+                load_path(path)
+            else:
+                load_text(twin)
+            result.count("benign_twins_loaded")
+        except Exception as e:  # noqa: B902
+            result.inconc("benign twin of %s/%s does not load: %r\n%s" % (case["label"], case["position"], e, twin))
+            in_place = False
+        purge_cold()
+        logging.getLogger("verif.c18").handlers.clear()
         vplug.reset()
         err, loaded = None, None
         with Canaries() as can:
             try:
-                loaded = load_text(case["text"])
+                if in_place:
+                    overwrite_keeping_mtime(path, case["text"])
+                    result.count("hostile_documents_replacing_a_loaded_file_in_place")
+                    loaded = load_path(path)
+                else:
+                    loaded = load_text(case["text"])
             except Exception as e:  # noqa: B902
                 err = e
+        if path is not None and os.path.exists(path):
+            os.unlink(path)
         result.case(case, key=case["text"])
         result.count("hostile_documents")
         result.count("position_" + case["position"])
@@ -261,22 +318,6 @@ def run_product(spec, result):
             problems.append("hostile document loaded without error (result %r)" % (loaded,))
         if can.events:
             problems.append("canaries fired: %s" % sorted(set(can.events)))
-        # the benign twin must load: "everything is rejected" cannot pass
-        hostile = hostile_nodes_by_label()[case["label"]]
-        special = {"root": "{pipeline: [!VPool ]}", "pipeline_element": "!VDeco", "pipeline_tail": "!VPool", "mapping_key": "plainkey",
-                   "lazy_tag_mapping_key": "plainkey", "eager_tag_mapping_key": "plainkey", "shipped_tag_arg": "2", "merge_value": "{a: 1}"}
-        if case["position"] in MULTI_DOC:
-            twin = "pipeline:\n  - !VPool\n"  # the stream without the later documents
-        elif case["position"] == "root_tag_on_sections":
-            twin = case["text"].replace("--- " + hostile.split(" ")[0], "---")
-        else:
-            twin = case["text"].replace(hostile, special.get(case["position"], BENIGN))
-        vplug.reset()
-        try:
-            load_text(twin)
-            result.count("benign_twins_loaded")
-        except Exception as e:  # noqa: B902
-            result.inconc("benign twin of %s/%s does not load: %r\n%s" % (case["label"], case["position"], e, twin))
         mech = None
         if case["position"] == "merge_value" and err is None and not can.events:
             # PyYAML flattens the value of a merge key without ever looking at its tag: the document
@@ -345,7 +386,7 @@ def run_shard(spec):
 
 
 def finish(total, tier):
-    need = ["hostile_documents", "benign_twins_loaded", "canary_selftests_fired"] + ["position_" + p for p in POSITIONS]
+    need = ["hostile_documents", "benign_twins_loaded", "canary_selftests_fired", "hostile_documents_replacing_a_loaded_file_in_place"] + ["position_" + p for p in POSITIONS]
     need += ["kind_" + k for k in ("apply-list", "object", "new", "name", "module", "typed", "untagged-list")]
     for name in need:
         if not total.counters.get(name) and not total.violations:
